@@ -486,6 +486,9 @@ class Interp:
             if isinstance(n.slice, ast.Slice):
                 sl = n.slice
                 if sl.step is not None:
+                    if isinstance(sl.step, ast.UnaryOp) and isinstance(sl.step.op, ast.USub) and isinstance(sl.step.operand, ast.Constant) and sl.step.operand.value == 1 \
+                            and sl.lower is None and sl.upper is None:
+                        return CALL(S('list'), [CALL(S('reversed'), [b])])          # x[::-1]
                     raise Unknown('slice step')
                 return ('slice', b, self.ex(sl.lower, fr) if sl.lower else NONE, self.ex(sl.upper, fr) if sl.upper else NONE)
             return self.load(I(b, self.ex(n.slice, fr)))
@@ -1125,6 +1128,15 @@ class Interp:
                 opn = {'add': 'setadd', 'update': 'setupdate'}.get(v.func.attr, v.func.attr)
                 self.accumulate(name, opn, None, val, fr, s)
                 return
+            if (isinstance(v, ast.Call) and isinstance(v.func, ast.Attribute) and isinstance(v.func.value, ast.Name) and v.func.value.id in fr.env
+                    and fr.env[v.func.value.id][0] not in ('sym', 'attr', 'bvar', 'idx')):
+                name = v.func.value.id
+                if v.func.attr == 'setdefault' and len(v.args) == 2 and not v.keywords:
+                    # d.setdefault(k, x) as a statement: d[k] = x unless k is there already (first one wins)
+                    self.accumulate(name, 'setdefidx', self.ex(v.args[0], fr), self.ex(v.args[1], fr), fr, s)
+                    return
+                if v.func.attr in MUTATING_METHODS and fr.env[name][0] in ('list', 'dict', 'comp', 'cat', 'accum', 'upd', 'bin'):
+                    raise Unknown('in-place %s() on the local container %s' % (v.func.attr, name))
             n0 = len(self.sink)
             if (isinstance(v, ast.Call) and isinstance(v.func, ast.Attribute) and v.func.attr in ('append', 'extend') and len(v.args) == 1
                     and isinstance(v.func.value, ast.Call) and isinstance(v.func.value.func, ast.Attribute) and v.func.value.func.attr == 'setdefault'
@@ -1334,7 +1346,7 @@ class Interp:
             fr.env[name] = cat(cur, ('list', (val,)))
         elif op == 'extend':
             fr.env[name] = cat(cur, val)
-        elif op in ('setidx', 'addidx', 'subidx', 'appendidx', 'extendidx', 'setslice', 'setadd', 'setupdate'):
+        elif op in ('setidx', 'addidx', 'subidx', 'appendidx', 'extendidx', 'setslice', 'setadd', 'setupdate', 'setdefidx'):
             fr.env[name] = ('upd', cur, op, index, val)
         else:
             fr.env[name] = simp_top(BIN(op, cur, val))
@@ -1435,7 +1447,7 @@ class Interp:
                     for t in tg:
                         targets_of(t)
                 elif isinstance(n, ast.Call) and isinstance(n.func, ast.Attribute) and isinstance(n.func.value, ast.Name) \
-                        and n.func.attr in ('append', 'extend', 'add', 'update'):
+                        and n.func.attr in MUTATING_METHODS:
                     names.add(n.func.value.id)
                 elif isinstance(n, ast.Call) and isinstance(n.func, ast.Attribute) and n.func.attr in ('append', 'extend') and isinstance(n.func.value, ast.Call) \
                         and isinstance(n.func.value.func, ast.Attribute) and n.func.value.func.attr == 'setdefault' and isinstance(n.func.value.func.value, ast.Name):
